@@ -30,11 +30,44 @@ pub fn ref_commit<G: AffineRepr>(b: &G, bb: &G, v: &G::ScalarField, r: &G::Scala
     (ref_mul(b, v) + ref_mul(bb, r)).into_affine()
 }
 
+/// a point of small order (None on cofactor-one curves): r · (a curve point outside the subgroup)
+pub fn small_order_point<G: CurveTag>() -> Option<G> {
+    if G::COFACTOR == 1 {
+        return None;
+    }
+    use ark_serialize::CanonicalDeserialize;
+    for y in 2u64..80 {
+        let mut b = vec![0u8; G::PT];
+        b[..8].copy_from_slice(&y.to_le_bytes());
+        if let Ok(q) = G::deserialize_compressed_unchecked(&b[..]) {
+            let t = q.mul_bigint(<G::ScalarField as PrimeField>::MODULUS);
+            if !ark_std::Zero::is_zero(&t) {
+                return Some(t.into_affine());
+            }
+        }
+    }
+    None
+}
+
 fn case<G: CurveTag>(bytes: &[u8], col: &mut Collector) -> Result<(), Failure> {
     let mut ch = Choices::new(bytes);
-    let base_kind = ch.weighted(&[40, 30, 10, 10, 10]);
+    let base_kind = ch.weighted(&[36, 27, 9, 9, 9, 10]);
     let def = pc_gens::<G>();
+    // bases that are not in the prime-order subgroup (cofactor curves): "any pair of bases"
+    let torsion: Option<G> = small_order_point::<G>();
+    let base_kind = if base_kind == 5 && torsion.is_none() { 1 } else { base_kind };
     let pc: PedersenGens<G> = match base_kind {
+        5 => {
+            let t = torsion.unwrap();
+            let k = 1 + ch.below(7) as u64;
+            let tk = ref_mul(&t, &G::ScalarField::from(k));
+            let p = rand_point::<G>(ch.u16() as u64);
+            match ch.below(3) {
+                0 => PedersenGens { B: (p.into_group() + tk).into_affine(), B_blinding: def.B_blinding },
+                1 => PedersenGens { B: def.B, B_blinding: (p.into_group() + tk).into_affine() },
+                _ => PedersenGens { B: (def.B.into_group() + tk).into_affine(), B_blinding: (def.B_blinding.into_group() + t.into_group()).into_affine() },
+            }
+        }
         0 => def,
         1 => PedersenGens { B: rand_point::<G>(ch.u16() as u64), B_blinding: rand_point::<G>(1 << 20 | ch.u16() as u64) },
         2 => {
@@ -51,7 +84,7 @@ fn case<G: CurveTag>(bytes: &[u8], col: &mut Collector) -> Result<(), Failure> {
     let cs = ScalarSpec::gen(&mut ch);
     let (v1, r1, v2, r2, c): (G::ScalarField, G::ScalarField, G::ScalarField, G::ScalarField, G::ScalarField) =
         (v1s.to_f(), r1s.to_f(), v2s.to_f(), r2s.to_f(), cs.to_f());
-    let bname = ["default", "random pair", "B = B_blinding", "swapped", "B_blinding = identity"][base_kind];
+    let bname = ["default", "random pair", "B = B_blinding", "swapped", "B_blinding = identity", "a base with a small-order component"][base_kind];
     let what = || json!({"curve": G::CURVE.name(), "bases": bname,
         "v1": v1s.short(), "r1": r1s.short(), "v2": v2s.short(), "r2": r2s.short(), "c": cs.short(), "v1_hex": f_hex(&v1), "r1_hex": f_hex(&r1)});
     let commit = |v: G::ScalarField, r: G::ScalarField| -> Result<G, Failure> {
@@ -63,14 +96,19 @@ fn case<G: CurveTag>(bytes: &[u8], col: &mut Collector) -> Result<(), Failure> {
     }
     let c2 = commit(v2, r2)?;
     let sum = commit(v1 + v2, r1 + r2)?;
-    if (c1.into_group() + c2.into_group()).into_affine() != sum {
+    if sum != ref_commit(&pc.B, &pc.B_blinding, &(v1 + v2), &(r1 + r2)) {
+        return Err(Failure::new("C13:value", "commit(v1+v2, r1+r2) != (v1+v2)*B + (r1+r2)*B_blinding (independent double-and-add)", what()));
+    }
+    // the derived laws reduce scalars modulo the group order: they only follow for bases of that order
+    let prime_order_bases = base_kind != 5;
+    if prime_order_bases && (c1.into_group() + c2.into_group()).into_affine() != sum {
         return Err(Failure::new("C13:homomorphism", "commit(v1,r1) + commit(v2,r2) != commit(v1+v2, r1+r2)", what()));
     }
     if !commit(G::ScalarField::zero(), G::ScalarField::zero())?.is_zero() {
         return Err(Failure::new("C13:zero", "commit(0, 0) is not the identity", what()));
     }
     let scaled = commit(c * v1, c * r1)?;
-    if ref_mul(&c1, &c).into_affine() != scaled {
+    if prime_order_bases && ref_mul(&c1, &c).into_affine() != scaled {
         return Err(Failure::new("C13:scaling", "c * commit(v, r) != commit(c*v, c*r)", what()));
     }
     // the prover hands back this same function of its inputs
@@ -103,10 +141,31 @@ fn case<G: CurveTag>(bytes: &[u8], col: &mut Collector) -> Result<(), Failure> {
             }
             seq.push((cur, blinds[if ch.chance(200) { 0 } else { 1 }]));
         }
+        // other constraint-system calls between the commitments (gates, constraints) must not matter
+        let between: Vec<u8> = (0..n).map(|_| ch.below(6) as u8).collect();
         let mut t2 = Transcript::new(b"c13-seq");
         let outs = guarded(|| {
+            use ark_bulletproofs::r1cs::{ConstraintSystem, LinearCombination};
             let mut p = Prover::new(&pc, &mut t2);
-            seq.iter().map(|(v, r)| p.commit(*v, *r).0).collect::<Vec<G>>()
+            let mut out = vec![];
+            for ((v, r), b) in seq.iter().zip(between.iter()) {
+                match b {
+                    1 => {
+                        let _ = p.allocate_multiplier(Some((*v, *r)));
+                    }
+                    2 => {
+                        let _ = p.allocate(Some(*v));
+                    }
+                    3 => {
+                        let one: LinearCombination<G::ScalarField> = LinearCombination::from(*v);
+                        let _ = p.multiply(one.clone(), one);
+                    }
+                    4 => p.constrain(LinearCombination::from(*r) - *r),
+                    _ => {}
+                }
+                out.push(p.commit(*v, *r).0);
+            }
+            out
         })
         .map_err(|p| Failure::new("C13:prover-panic", format!("Prover::commit panicked: {}", p), what()))?;
         for (i, ((v, r), got)) in seq.iter().zip(outs.iter()).enumerate() {
@@ -119,6 +178,9 @@ fn case<G: CurveTag>(bytes: &[u8], col: &mut Collector) -> Result<(), Failure> {
             }
         }
         col.class("prover-commit-run");
+        if between.iter().any(|b| (1..=3).contains(b)) {
+            col.class("prover-commit-after-gates");
+        }
     }
     let wrap = {
         // v1 + v2 wraps around the modulus iff the integer sum is ≥ p
@@ -126,7 +188,7 @@ fn case<G: CurveTag>(bytes: &[u8], col: &mut Collector) -> Result<(), Failure> {
         let carry = a.add_with_carry(&v2.into_bigint());
         carry || a >= <G::ScalarField as PrimeField>::MODULUS
     };
-    col.class(["bases:default", "bases:random", "bases:equal", "bases:swapped", "bases:identity-blinding"][base_kind]);
+    col.class(["bases:default", "bases:random", "bases:equal", "bases:swapped", "bases:identity-blinding", "bases:small-order-component"][base_kind]);
     if wrap {
         col.class("wrap-around");
     }
